@@ -5,6 +5,10 @@
 (*   run          configuration, Hamiltonian (exact domain: the integer    *)
 (*                tables f, g of a classical energy function), reference   *)
 (*                ground energy from numpy, convention probes              *)
+(*   solve_start  one DMRG.solve() call begins: its sweep sequence, bond /  *)
+(*                cut-off schedules, max_sweeps, tol (several calls may     *)
+(*                follow each other on ONE object: restart histories)       *)
+(*   solve_end    what the call returned, how many sweeps it made           *)
 (*   sweep_start  direction / canonize / cap / cutoff handed to DMRG.sweep *)
 (*   update       after every DMRG._update_local_state(i): local and total *)
 (*                energy, full contraction of TN_energy, measured energies *)
@@ -67,20 +71,45 @@ RunState(ln) ==
    k |-> 0, prevdir |-> "0", dir |-> "0", canon |-> TRUE, cap |-> 0, capmax |-> 0, cut12 |-> 0,
    pend |-> <<>>, visited |-> <<>>, live |-> FALSE,
    lastE |-> [has |-> ln.ep0 < 2147483647, e |-> ln.ep0], lastTot |-> 0,
-   sweepE |-> <<>>, exactSince |-> FALSE]
+   sweepE |-> <<>>, exactSince |-> FALSE,
+   call |-> [c |-> 0, k0 |-> 0, seq |-> <<"R">>, caps |-> <<0>>, cuts12 |-> <<0>>, maxsw |-> 0, tol7 |-> 0], incall |-> FALSE]
+
+(* ------------------------ solve_start / solve_end ----------------------- *)
+SolveStartClauses(ln, s) ==
+  << <<"TraceWellFormed", s.tid = ln.tid /\ ~s.live /\ ~s.incall /\ ln.c = s.call.c + 1 /\ s.cfg.mode = "solve">> >>
+SolveStartState(ln, s) ==
+  [s EXCEPT !.incall = TRUE,
+            !.call = [c |-> ln.c, k0 |-> s.k, seq |-> ln.seq, caps |-> ln.caps, cuts12 |-> ln.cuts12,
+                      maxsw |-> ln.maxsw, tol7 |-> ln.tol7]]
+
+SolveEndClauses(ln, s) ==
+  LET n == Len(s.sweepE)
+      made == s.k - s.call.k0
+  IN
+  << <<"TraceWellFormed", s.tid = ln.tid /\ ~s.live /\ s.incall /\ ln.c = s.call.c /\ ln.nsw = made>>,
+     \* documented stopping rule: a call returns True as soon as the last two sweep energies (of the object) differ
+     \* by less than tol, otherwise it makes max_sweeps sweeps and returns False
+     <<"StopsWhenConverged",
+          IF ln.conv THEN made >= 1 /\ made <= s.call.maxsw /\ n >= 2 /\ Abs(s.sweepE[n] - s.sweepE[n - 1]) <= s.call.tol7 + 1
+          ELSE made = s.call.maxsw /\ (n >= 2 => Abs(s.sweepE[n] - s.sweepE[n - 1]) >= s.call.tol7 - 1)>> >>
+SolveEndState(ln, s) == [s EXCEPT !.incall = FALSE]
 
 (* --------------------------- sweep_start -------------------------------- *)
 StartClauses(ln, s) ==
-  LET c == s.cfg IN
-  << <<"TraceWellFormed", s.tid = ln.tid /\ ~s.live /\ ln.k = s.k + 1>>,
+  LET c == s.cfg
+      kk == ln.k - s.call.k0          \* number of this sweep inside its solve() call
+  IN
+  << <<"TraceWellFormed", s.tid = ln.tid /\ ~s.live /\ ln.k = s.k + 1 /\ (c.mode = "solve" => s.incall)>>,
      <<"ScheduleFollowed",
         c.mode = "solve" =>
-          /\ ln.k <= c.maxsw
-          /\ ln.dir = SeqDir(c.seq, ln.k)
-          /\ ln.cap = Sched(c.caps, ln.k)
-          /\ ln.cut12 = Sched(c.cuts12, ln.k)
-          \* "Canonize the state first, not needed if doing alternate sweeps": it may canonize more often
-          /\ (NeedCanonize(ln.dir, s.prevdir) => ln.canon)>> >>
+          /\ kk <= s.call.maxsw
+          /\ ln.dir = SeqDir(s.call.seq, kk)
+          /\ ln.cap = Sched(s.call.caps, kk)
+          /\ ln.cut12 = Sched(s.call.cuts12, kk)>>,
+     \* "Canonize the state first, not needed if doing alternate sweeps": whenever the previous sweep OF THIS
+     \* OBJECT (whichever solve() call or manual sweep made it) did not go the opposite way, the sweep must
+     \* canonize first; it may canonize more often
+     <<"CanonizedWhenNeeded", NeedCanonize(ln.dir, s.prevdir) => ln.canon>> >>
 
 StartState(ln, s) ==
   [s EXCEPT !.k = ln.k, !.dir = ln.dir, !.canon = ln.canon, !.cap = ln.cap, !.capmax = Max2(@, ln.cap), !.cut12 = ln.cut12,
@@ -110,9 +139,11 @@ UpdateClauses(ln, s) ==
      \* ... and that number is <psi|H|psi> of the current tensors (before any normalisation)
      <<"TotalEnergyIsExpectation", Close(ln.etot, ln.eud, TolE) /\ ln.eim <= TolE>>,
      \* inside a sweep the reported total energy is the normalised expectation value whenever nothing was cut
-     <<"ReportedEqualsMeasured", Untrunc(ln, c) => Close(ln.etot, ln.ema, TolE) /\ Close(ln.etot, ln.emd, TolE)>>,
-     <<"RoutesAgree", Close(ln.ema, ln.emd, TolE)>>,
-     <<"Variational", (ln.emd >= s.e0 - TolVar) /\ (ln.ema >= s.e0 - TolVar)
+     \* (hasema: the library route psi.H @ ham.apply(psi) was evaluated for this update; the S->C replays evaluate
+     \*  it at sweep ends and on the final state only, the dense measurement is always there)
+     <<"ReportedEqualsMeasured", Untrunc(ln, c) => (ln.hasema => Close(ln.etot, ln.ema, TolE)) /\ Close(ln.etot, ln.emd, TolE)>>,
+     <<"RoutesAgree", ln.hasema => Close(ln.ema, ln.emd, TolE)>>,
+     <<"Variational", (ln.emd >= s.e0 - TolVar) /\ (ln.hasema => ln.ema >= s.e0 - TolVar)
                       /\ (Untrunc(ln, c) => (ln.etot >= s.e0 - TolVar /\ ln.eloc >= s.e0 - TolVar))>>,
      \* from one untruncated update to the next neither the local optimum nor the total energy goes up
      \* (ARPACK with 4 Lanczos vectors on the exactly degenerate integer spectra of the classical family, started
@@ -175,13 +206,9 @@ FinalClauses(ln, s) ==
   IF ln.exc # "" THEN << <<"Returns", ln.solverexc>>, <<"NOTE:SolverDidNotConverge", ~ln.solverexc>> >>
   ELSE
   << <<"Returns", TRUE>>,
-     <<"TraceWellFormed", s.tid = ln.tid /\ ~s.live>>,
+     <<"TraceWellFormed", s.tid = ln.tid /\ ~s.live /\ ~s.incall>>,
      \* dmrg.energies is the history of sweep-end energies, dmrg.energy its last entry
      <<"EnergiesAreSweepEnds", solve => ln.energies = s.sweepE /\ n >= 1 /\ ln.energy = ln.energies[n]>>,
-     \* documented stopping rule: converged <=> the last two sweep energies differ by less than tol
-     <<"StopsWhenConverged", solve =>
-          IF ln.conv THEN n >= 2 /\ Abs(ln.energies[n] - ln.energies[n - 1]) <= c.tol7 + 1
-          ELSE n = c.maxsw /\ (n >= 2 => Abs(ln.energies[n] - ln.energies[n - 1]) >= c.tol7 - 1)>>,
      <<"ConvergedExact",
           (solve /\ ln.conv /\ CapAdmitsAll(s.cap, c.L, c.d) /\ s.exactSince) =>
              (Close(ln.energy, s.e0, TolConv) /\ StateExact(ln, s))>>,
@@ -207,6 +234,8 @@ PeriodicClauses(ln) ==
 (* ------------------------------ machinery ------------------------------- *)
 Clauses(ln, s) ==
   CASE ln.ev = "run"         -> RunClauses(ln)
+    [] ln.ev = "solve_start" -> SolveStartClauses(ln, s)
+    [] ln.ev = "solve_end"   -> SolveEndClauses(ln, s)
     [] ln.ev = "sweep_start" -> StartClauses(ln, s)
     [] ln.ev = "update"      -> UpdateClauses(ln, s)
     [] ln.ev = "sweep_end"   -> EndClauses(ln, s)
@@ -217,6 +246,8 @@ Clauses(ln, s) ==
 \* records that do not belong to the run in progress are reported (TraceWellFormed) and leave the state alone
 NextSt(ln, s) ==
   CASE ln.ev = "run"                                -> RunState(ln)
+    [] ln.ev = "solve_start" /\ s.tid = ln.tid      -> SolveStartState(ln, s)
+    [] ln.ev = "solve_end" /\ s.tid = ln.tid        -> SolveEndState(ln, s)
     [] ln.ev = "sweep_start" /\ s.tid = ln.tid      -> StartState(ln, s)
     [] ln.ev = "update" /\ s.tid = ln.tid           -> UpdateState(ln, s)
     [] ln.ev = "sweep_end" /\ s.tid = ln.tid        -> EndState(ln, s)
